@@ -4,5 +4,5 @@ patch="$1"; shift
 cd /repo || exit 2
 if [ -n "$(git status --porcelain)" ]; then echo "/repo not clean"; exit 2; fi
 git apply "$patch" || { echo "patch does not apply"; exit 2; }
-for id in "$@"; do (cd /verif && ./check "$id" quick 2>&1 | grep -E "^(OK|FAIL|VIOLATION|KNOWN)" | cut -c1-400); done
+for id in "$@"; do (cd /verif && . ./env.sh && ${LL:-./bin/lndlint} check -verif ${LLVERIF:-/verif} "$id" 2>&1 | grep -E "^(OK|FAIL|VIOLATION|KNOWN)" | cut -c1-400); done
 git checkout -- . && git status --porcelain | head -3
